@@ -591,14 +591,14 @@ fn execute(p: &Prog, seed: u64, tag: u32) -> ExecResult {
 
 // ------------------------------------------------------------------ program generation
 
-fn gen_prog(r: &mut Rng) -> Prog {
+fn gen_prog(r: &mut Rng, big: bool) -> Prog {
     let setup = r.below(N_SETUPS as usize) as u8;
-    let nt = if r.chance(1, 3) { 3 } else { 2 };
+    let nt = if big { 4 + r.below(5) } else if r.chance(1, 3) { 3 } else { 2 };
     let with_ref = setup == 0 || r.chance(1, 3);
     let mut threads = Vec::new();
     for t in 0..nt {
         let is_m = setup == 5 || (setup == 6 && t == nt - 1);
-        let n = 1 + r.below(3);
+        let n = if big { 5 + r.below(16) } else { 1 + r.below(3) };
         let mut ops = Vec::new();
         for _ in 0..n {
             ops.push(if is_m { *r.pick(&M_OPS) } else { *r.pick(&B_OPS) });
@@ -607,7 +607,7 @@ fn gen_prog(r: &mut Rng) -> Prog {
         if setup == 0 {
             ops.insert(0, Op::CloneRef);
         }
-        if !is_m && r.chance(1, 3) {
+        if !big && !is_m && r.chance(1, 3) {
             ops = vec![if setup == 0 { Op::CloneRef } else { Op::Read }, Op::Read, Op::Drop];
         } else if !is_m && r.chance(1, 4) {
             ops.push(*r.pick(&[Op::TryIntoMut, Op::IntoMut, Op::IntoVec]));
@@ -645,7 +645,12 @@ fn main() {
             continue;
         }
         let mut r = Rng::new(mix2(seed, g as u64));
-        let p = gen_prog(&mut r);
+        // every 8th program of a stress run is a larger randomised one (4-8 threads, 5-20 ops each)
+        let big = a.mode != "miri" && pi % 8 == 7;
+        let p = gen_prog(&mut r, big);
+        if big {
+            o.inc("big_programs");
+        }
         let name = prog_name(&p);
         let case = format!("conc:{seed}:{g}");
         vharness::out::journal(&format!("{case} {name}"));
